@@ -838,6 +838,30 @@ def exec_twin(g, h, d, writers, r, with_direct, lose=False):
     return e
 
 
+def exec_areadv(g, h, d):
+    """slot_readv through the IStorageServer adapter the client uses over HTTP (storage_client._HTTPStorageServer: one
+    range read per (share, read vector), in parallel) next to slot_readv of the twin server"""
+    from allmydata.storage_client import _HTTPStorageServer
+    rng = g.rng
+    cands = [si for si in SISM if any(s["present"] for s in h.obs(si).values())]
+    if not cands:
+        return None
+    si = rng.choice(cands)
+    present = sorted(sh for sh, s in h.obs(si).items() if s["present"])
+    shares = [] if rng.random() < 0.4 else sorted(rng.sample(present, rng.randint(1, len(present))))
+    nv = rng.choice([1, 2, 4, 5, 6, 11])
+    rv = [{"off": rng.randint(0, 12), "len": rng.randint(1, 9)} for _ in range(nv)]
+    adapter = _HTTPStorageServer.from_http_client(h.client)
+    res = h.run(adapter.slot_readv(SI[si], [int(x) for x in shares], [(x["off"], x["len"]) for x in rv]))
+    if hasattr(res, "check"):
+        got, how = {}, type(res.value).__name__
+    else:
+        got, how = {str(k): [b2l(x) for x in v] for k, v in res.items()}, "ok"
+    dres = d.ss.slot_readv(SI[si], [int(x) for x in shares], [(x["off"], x["len"]) for x in rv])
+    return {"ev": "AReadv", "si": si, "shares": shares, "rv": rv, "how": how, "res": got,
+            "d": {str(k): [b2l(x) for x in v] for k, v in dres.items()}}
+
+
 def compare_trees(h, d):
     def norm(files):
         out, seen = {}, {}
@@ -872,6 +896,11 @@ def twin_trace(rng, work, nevents, zero_read, focus=""):
         while len(events) < nevents:
             op = rng.choice(TWIN_RTW_OPS if focus == "rtw" else TWIN_OPS)
             lose = False
+            if op in ("mread", "mlist") and rng.random() < 0.5:
+                e = exec_areadv(g, h, d)
+                if e is not None:
+                    events.append(e)
+                    continue
             if op == "advance":
                 events.append(advance_event(g, [h, d]))
                 continue
